@@ -449,7 +449,7 @@ pub fn split_runs(events: Vec<StepEvent>) -> Vec<Vec<StepEvent>> {
     runs
 }
 
-fn classic_models() -> Vec<(LinearModel, &'static str)> {
+pub fn classic_models() -> Vec<(LinearModel, &'static str)> {
     let mut v = vec![];
     let nn = VariableType::non_negative_real;
     // Beale's cycling example
